@@ -113,6 +113,17 @@ def r12b(ctx):
     for (b, si, k, e) in a.ret_sites():
         if k == 'ok' and e[3][0][1][0] == 'agg' and e[3][0][1][2].endswith('Option::Some'):
             hits.append((b, si, e[3][0][1][3][0][1]))
+    # a hit that re-wraps the payload of an Option built elsewhere (`if let Some(buf) = helper()? { return Ok(Some(buf)) }`)
+    # is judged at the place where that Option was built
+    rew = []
+    for (b_, si_, pl_) in hits:
+        if a.root_call(pl_) is None and pl_[0] == 'local':
+            inner = [z for (_, _, se_) in a.flow.sources(pl_, (b_, si_)) for z in flow.subtrees(se_)
+                     if z[0] == 'agg' and z[2].endswith('Option::Some') and z[3] and a.root_call(z[3][0][1]) is not None]
+            if inner:
+                rew.append((b_, si_))
+    if rew:
+        hits = [h for h in hits if (h[0], h[1]) not in rew]
     if not hits:
         # the hit may be built further away from the return (an inlined helper's result, a result variable): every
         # `Some(range)` of the cache's payload type built in the function is a hit site
@@ -122,7 +133,14 @@ def r12b(ctx):
                 if r_ and d_ and 'p' not in d_ and r_.get('k') == 'agg' and r_.get('ak') == 'adt' and r_.get('var') == 'Some' and 'Option' in (r_.get('adt') or '') \
                         and 'CacheRange' in a.flow.lty(d_['l']):
                     e_ = a.flow.rvalue(r_, 0)
-                    hits.append((b_, si_, e_[3][0][1]))
+                    pl_ = e_[3][0][1]
+                    if a.root_call(pl_) is None and pl_[0] == 'local':
+                        # a re-wrap `Some(x)` of the payload of an Option built elsewhere in the function: not a hit site of its own
+                        srcs_ = a.flow.sources(pl_, (b_, si_))
+                        if any(flow.mentions(se_, lambda z: z[0] == 'agg' and z[2].endswith('Option::Some') and z[3] and a.root_call(z[3][0][1]) is not None
+                                             and sg(a.root_call(z[3][0][1])[1]).endswith('get_range_from_cache_file')) for (_, _, se_) in srcs_):
+                            continue
+                    hits.append((b_, si_, pl_))
     ctx.floor('R12b', 'hit returns in get_impl', len(hits), 1)
     lp = c05.loop_of(a, opens[0])
     for (b, si, payload) in hits:
